@@ -182,6 +182,9 @@ def check(chk, repo, tier):
                witness="Þ∞ 0 Ẏ / Þ∞ 1 Ẏ never returns")
     chk.unit("eager-consumption candidate sites examined", n_sites)
 
+    next_on_the_list_itself(chk, repo)
+    templates_do_not_force(chk, repo)
+    popping_does_not_force(chk, repo)
     lazylist_methods(chk, repo)
 
     chk.explanation = (
@@ -198,6 +201,197 @@ def check(chk, repo, tier):
         "shows the parameter is a string/number/function; the remaining "
         "sites are a reviewed table. LazyList's own access path pulls only "
         "what is asked for. Does not decide the linear pull bound.")
+
+
+def next_on_the_list_itself(chk, repo):
+    """next(x) on a LazyList pulls a *new* item from its source and skips
+    what is already cached; a transformation walks its argument through
+    iter(...) / a for loop (which replay the cache first)."""
+    n = 0
+    seen = set()
+    for modname, fname, param in CATALOGUE:
+        if (modname, fname) in seen:
+            continue
+        seen.add((modname, fname))
+        mod = repo.mod(modname)
+        fn = mod.functions[fname]
+        params = {a.arg for a in fn.args.args if a.arg not in ("ctx",)}
+        views = set()
+        for p_ in params:
+            views |= LazyViews(fn, p_, {c: set() for c in LAZY_CALLEES}).views
+
+        def bare_view(e):
+            """can `e` be the list object itself (not an iterator over it)?"""
+            if isinstance(e, ast.Name):
+                return e.id in params
+            if isinstance(e, ast.IfExp):
+                return bare_view(e.body) or bare_view(e.orelse)
+            if isinstance(e, ast.Call) and (dotted(e.func) or "").split(
+                    ".")[-1] in ("iterable", "deep_copy", "LazyList",
+                                 "vyxalify"):
+                return True
+            return False
+        for c in ast.walk(fn):
+            if not (isinstance(c, ast.Call) and dotted(c.func) == "next"
+                    and c.args and isinstance(c.args[0], ast.Name)):
+                continue
+            nm = c.args[0].id
+            if nm not in views and nm not in params:
+                continue
+            n += 1
+            defs = [a.value for a in ast.walk(fn) if isinstance(a, ast.Assign)
+                    and any(isinstance(t, ast.Name) and t.id == nm
+                            for t in a.targets)]
+            bad = nm in params and not defs or any(bare_view(d) for d in defs)
+            chk.ob("C14.iterates-through-iter", f"{modname}.{fname}:next({nm})",
+                   not bad,
+                   f"`next({nm})` may be applied to the lazy list itself: "
+                   "that pulls a new source item and skips the cached prefix "
+                   "- a list that was looked at before is continued from the "
+                   "wrong place, and every use pulls further", mod.rel,
+                   c.lineno, witness="→x ←x 3Ẏ _ ←x 0 50r Y 4Ẏ")
+    chk.unit("next() calls on views in catalogued functions", n)
+
+
+def templates_do_not_force(chk, repo):
+    """Modifier templates and hand-written element templates handle popped
+    values that may be infinite lists: no equality with a list, len(), list(),
+    sorted(), membership ... on them in the template itself."""
+    from ..templates import Gen, table_keys_with_nodes
+    gen = Gen(repo)
+    EF = repo.mod("elements").rel
+    items = []
+    for key, knode, _ in table_keys_with_nodes(repo, "modifiers"):
+        v = gen.modifiers().get(key)
+        if isinstance(v, str):
+            items.append((f"modifiers[{key!r}]", v, knode.lineno))
+    for key, knode, vnode in table_keys_with_nodes(repo, "elements"):
+        v = gen.elements().get(key)
+        if isinstance(v, tuple) and isinstance(v[0], str) \
+                and not isinstance(vnode, ast.Call):
+            items.append((f"elements[{key!r}]", v[0], knode.lineno))
+    n = 0
+    for cons, code, line in items:
+        try:
+            body = ast.parse(code).body
+        except SyntaxError:
+            continue
+        fn = ast.FunctionDef(
+            name="_template", args=ast.arguments(
+                posonlyargs=[], args=[ast.arg(arg="stack"),
+                                      ast.arg(arg="ctx")],
+                kwonlyargs=[], kw_defaults=[], defaults=[]),
+            body=body or [ast.Pass()], decorator_list=[], lineno=1,
+            col_offset=0)
+        ast.fix_missing_locations(fn)
+        for p_ in ast.walk(fn):
+            for c_ in ast.iter_child_nodes(p_):
+                c_._parent = p_
+        popped = []
+        for a in ast.walk(fn):
+            if isinstance(a, ast.Assign) and isinstance(a.value, ast.Call) \
+                    and (dotted(a.value.func) or "") in ("pop", "wrapify"):
+                cnt = a.value.args[1] if len(a.value.args) > 1 else None
+                t = a.targets[0]
+                if isinstance(t, ast.Tuple):
+                    popped += [e.id for e in t.elts
+                               if isinstance(e, ast.Name)]
+                elif isinstance(t, ast.Name) and isinstance(
+                        cnt, ast.Constant) and cnt.value == 1:
+                    popped.append(t.id)
+        if not popped:
+            continue
+        n += 1
+        lv = LazyViews(fn, popped[0], {c: set() for c in LAZY_CALLEES})
+        lv.views |= set(popped)
+        lv._fix()
+        repo_fns = set(repo.mod("elements").functions) | set(
+            repo.mod("helpers").functions)
+        sites = [s_ for s_ in lv.sites()
+                 if not excluded_by_guard(s_.node, fn, popped[0])
+                 # what an element's own function does with the value is the
+                 # element's meaning (Ṙ reverses); only consumption written in
+                 # the template itself is judged here
+                 and not (isinstance(s_.node, ast.Call) and (dotted(
+                     s_.node.func) or "").split(".")[-1] in repo_fns)]
+        # a popped value is also a *stack item*: WHOLE-STACK elements
+        # (wrap, length ...) look at the stack, not at the items
+        chk.ob("C14.template-does-not-force", cons, not sites,
+               (f"the template consumes a popped value eagerly "
+                f"(`{sites[0].desc}`: {sites[0].how}): with an infinite list "
+                "on the stack it never returns") if sites else "", EF, line,
+               witness="Þ∞ ɖ+ 3Ẏ")
+    chk.unit("templates with popped values examined", n)
+
+
+def popping_does_not_force(chk, repo):
+    """helpers.pop / wrapify hand stack entries over untouched: whatever they
+    do with an entry (re-push, reverse the order of entries) must not look
+    into it."""
+    mod = repo.mod("helpers")
+    for fname in ("pop", "wrapify"):
+        if fname not in mod.functions:
+            raise AnalysisError(f"anchor vanished: helpers.{fname}")
+        fn = mod.functions[fname]
+        holders = set()   # lists of popped entries
+        items = set()     # names bound to one entry
+        for a in ast.walk(fn):
+            if isinstance(a, ast.Assign) and isinstance(a.value, ast.Call):
+                d = dotted(a.value.func) or ""
+                if d.endswith(".pop") or d in ("get_input", "pop"):
+                    for t in a.targets:
+                        if isinstance(t, ast.Name):
+                            (items if d != "pop" else holders).add(t.id)
+            if isinstance(a, ast.Call) and isinstance(a.func, ast.Attribute) \
+                    and a.func.attr == "append" and isinstance(
+                    a.func.value, ast.Name) and a.args:
+                arg = a.args[0]
+                if isinstance(arg, ast.Name) and arg.id in items or (
+                        isinstance(arg, ast.Call) and (dotted(arg.func) or ""
+                                                       ).endswith(".pop")):
+                    holders.add(a.func.value.id)
+        for _ in range(2):
+            for a in ast.walk(fn):
+                if isinstance(a, (ast.For, ast.comprehension)) and isinstance(
+                        a.target, ast.Name):
+                    src = a.iter
+                    while isinstance(src, ast.Subscript):
+                        src = src.value
+                    if isinstance(src, ast.Call) and (dotted(src.func) or ""
+                                                      ) == "reversed" \
+                            and src.args:
+                        src = src.args[0]
+                    if isinstance(src, ast.Name) and src.id in holders:
+                        items.add(a.target.id)
+        bad = None
+        for c in ast.walk(fn):
+            if not isinstance(c, ast.Call):
+                continue
+            d = dotted(c.func) or ""
+            short = d.split(".")[-1]
+            hit = [a for a in c.args if isinstance(a, ast.Name)
+                   and a.id in items]
+            if not hit or short in ("append", "extend"):
+                continue
+            if short in mod.functions:
+                callee = mod.functions[short]
+                ps = [x.arg for x in callee.args.args]
+                idx = c.args.index(hit[0])
+                if idx < len(ps):
+                    lv = LazyViews(callee, ps[idx],
+                                   {k: set() for k in LAZY_CALLEES})
+                    if lv.sites():
+                        bad = bad or (c, lv.sites()[0].desc)
+            elif short in ("list", "len", "tuple", "sorted", "sum", "str",
+                           "repr", "vy_str", "simplify", "deepcopy"):
+                bad = bad or (c, short)
+        chk.ob("C14.popping-does-not-force", f"helpers.{fname}", bad is None,
+               (f"`{ast.unparse(bad[0])[:50]}` looks into a popped entry "
+                f"({bad[1]}): with an infinite list on the stack the pop "
+                "itself never returns") if bad else "", mod.rel,
+               bad[0].lineno if bad else fn.lineno,
+               witness="Þ∞ 3 ~Ẏ (retain-popped mode)",
+               sample={"entries": sorted(items), "holders": sorted(holders)})
 
 
 def method_closure(methods, name):
